@@ -2827,13 +2827,23 @@ class AggregateBase(UnitsManaged, Saveable, OpenSystem):
                     # removed
 
 
-                # we get this in SITE BASIS
+                # we need this in SITE BASIS; if we are called from within 
+                # a basis context, the data are in the basis of the context, 
+                # and we have to undo all current basis transformations
                 ham = HH.data
+                SS = numpy.eye(ham.shape[0])
+                for ZZ in Manager().basis_transformations[1:]:
+                    SS = numpy.dot(SS, ZZ)
+                S1 = numpy.linalg.inv(SS)
+                ham = numpy.dot(SS, numpy.dot(ham, S1))
 
                 rho0 = self._thermal_population(temperature,
                                                 subtract=re,
                                                 relaxation_hamiltonian=ham,
                                                 start=start)
+                
+                # the density matrix is returned in the current basis
+                rho0 = numpy.dot(S1, numpy.dot(rho0, SS))
 
             elif relaxation_theory_limit == "weak_coupling":
 
